@@ -516,7 +516,15 @@ func stripOAIGen(opts *FlattenOpts) (bool, error) {
 		updateRefParents(opts.Spec.references.allRefs, r)
 	}
 
+	// process entries in a stable order: every step mutates the spec and the other entries,
+	// so the outcome must not depend on map iteration order
+	sortedKeys := make([]string, 0, len(opts.flattenContext.newRefs))
 	for k := range opts.flattenContext.newRefs {
+		sortedKeys = append(sortedKeys, k)
+	}
+	sort.Strings(sortedKeys)
+
+	for _, k := range sortedKeys {
 		r := opts.flattenContext.newRefs[k]
 		debugLog("newRefs[%s]: isOAIGen: %t, resolved: %t, name: %s, path:%s, #parents: %d, parents: %v,  ref: %s",
 			k, r.isOAIGen, r.resolved, r.newName, r.path, len(r.parents), r.parents, r.schema.Ref.String())
